@@ -4,6 +4,8 @@
                      a = stepup(k), P = r0*prod(1-|k_i|^2), T_p [1,a]^T = [P,0..0]^T, and LEVINSON(r, order=q) returns the first q
                      reflection coefficients -- as identities in Q(r0, k): all values, real and complex, p <= 5 (7 thorough)
  levinson.generic.*  symbolic r (no parametrisation): T_p [1,a]^T = [P,0..0]^T and P = r0*prod(1-|ref_i|^2), p <= 3
+ levinson.stable.*   'a stable polynomial': the a returned by the real LEVINSON (elements of Q(r0, k)) handed to z3 as polynomials;
+                     |k_i| < 1, z^p + a_1 z^(p-1) + .. + a_p = 0 => |z| < 1 over the reals, all values; real p = 1, 2, complex p = 1
  levinson.raise.*    (E1, all values) the singularity test: a stage with P <= 0 raises ValueError unless allow_singularity
  hermtoep.* / toeplitz.*  T X = Z for generic symbolic systems of size <= 3 (4 thorough)
  cholesky.*          the three back ends against their library contracts (factor / triangular solves): A X = B
@@ -25,10 +27,11 @@ META = {
                     "L-PARAM: every autocorrelation with non-vanishing leading minors is ac(r0, k) for some (r0, k) "
                     "(textbook; made unnecessary up to order 3 by the generic runs)",
                     "P > 0 and |k_i| < 1 for positive definite r follow from the proved identities by sign reasoning; the Schur-Cohn "
-                    "step (|k_i| < 1 => stable polynomial) is a root-location theorem and is not claimed",
+                    "step (|k_i| < 1 => stable polynomial) is discharged by z3 (non-linear real arithmetic) on the coefficients the real "
+                    "code returns at real orders 1, 2 and complex order 1; beyond them it is a root-location theorem and is not claimed",
                     "CHOLESKY: scipy.linalg.cholesky returns the upper factor U with U^H U = A, cho_solve((c, lower), b) solves "
                     "(c^H c) x = b for lower=False; numpy.linalg.cholesky returns the lower factor; numpy.linalg.solve solves exactly"],
-    "trusted_base": ["sympy.polys (exact rational-function arithmetic, gcd normal form)"],
+    "trusted_base": ["sympy.polys (exact rational-function arithmetic, gcd normal form)", "z3 nlsat (levinson.stable.*)"],
     "explanation": "Deductive, bounded in size: the real code is executed on elements of Q(symbols) and every equation of the "
                    "statement is decided as an identity of that field by normal form (all values at once), for orders/sizes up to "
                    "the stated bound; the singularity clause is proved for all values by the SMT engine.",
@@ -95,6 +98,30 @@ def lev_generic_task(p, cx):
         E.eq("P=r0*prod(1-|ref|^2)", Pc, prod)
         E.eq("a=stepup(ref)", A, stepup(ref.to_list()))
     return Task("levinson.generic.%s.p%d" % ("complex" if cx else "real", p), run, kind="bounded", prerun=True, functions=["spectrum.levinson.LEVINSON"])
+
+
+def lev_stable_task(p, cx):
+    """the clause 'a stable polynomial', decided for all values at the orders where non-linear real arithmetic decides it: the
+    coefficients a the REAL LEVINSON returns on r = ac(r0, k) (elements of Q(r0, k), extracted from the exact run) are handed to
+    z3 as polynomials, and   |k_i| < 1 for all i,  z^p + a_1 z^(p-1) + ... + a_p = 0   =>   |z| < 1   is discharged over the
+    reals (z = u + iv).  Real p = 1, 2 and complex p = 1 are decided in milliseconds; real p = 3 and complex p = 2 are not decided
+    by z3 4.8 / 5.1 or cvc5 within 40 s and are not attempted (Schur-Cohn in general is a root-location theorem, not claimed)."""
+    def run(tc):
+        dom, I = e3_interp(tc, names_for(p, cx))
+        E = E3(tc, dom, "levinson", {"p": p, "complex": cx, "mode": "stable"}, tc.seed)
+        ks = ksyms(dom, p, cx)
+        r0 = dom.sym("r0")
+        r, a, P = ac_from_rc(r0, ks)
+        dt = "complex" if cx else "float"
+        val = E.run(I, lambda I_: I_.call_qual("spectrum.levinson.LEVINSON", Arr.from_items(r, dtype=dt)))
+        if val is None or getattr(tc, "point_mode", False):
+            return
+
+        def hyps(zv):
+            return [zv["r0"] > 0] + [(zv["k%d_r" % i] * zv["k%d_r" % i] + zv["k%d_i" % i] * zv["k%d_i" % i] < 1) if cx else
+                                     (zv["k%d" % i] * zv["k%d" % i] < 1) for i in range(p)]
+        e3.nra_stable(tc, E, dom, val[0].to_list(), hyps, "stable:|k|<1=>roots-of-[1,a]-inside-unit-circle")
+    return Task("levinson.stable.%s.p%d" % ("complex" if cx else "real", p), run, functions=["spectrum.levinson.LEVINSON"])
 
 
 def lev_raise_task(allow):
@@ -262,6 +289,7 @@ def tasks(tier):
         for p in range(1, (gmax if not cx else gmax - 1) + 1):
             ts.append(lev_generic_task(p, cx))
     ts += [lev_raise_task(False), lev_raise_task(True)]
+    ts += [lev_stable_task(1, False), lev_stable_task(2, False), lev_stable_task(1, True)]
     for M in range(1, min(smax, 3) + 1):
         # complex 5x5 (M = 4) gives no result within 150 s in Q(19 symbols): not attempted
         ts.append(hermtoep_task(M, False))
